@@ -33,7 +33,11 @@ impl Tick for Box[int32] {
     fn addv(self: Box[int32], n: int32) -> int32 { self.v + n + n }
     fn tick(self: Box[int32]) -> unit { string_println("tick-box") }
 }
-impl P { fn sum(self: P, n: int32) -> int32 { if self.b { self.a + n } else { self.a - n } } }
+impl P {
+    fn sum(self: P, n: int32) -> int32 { if self.b { self.a + n } else { self.a - n } }
+    fn tagm[U](self: P, x: U) -> (int32, U) { (self.a, x) }
+    fn pickm[U](self: P, x: U, y: U) -> U { if self.b { x } else { y } }
+}
 fn pi(t: string, v: int32) -> int32 { let _ = string_println(t); v }
 fn add(a: int32, b: int32) -> int32 { a + b }
 fn inc3(x: int32) -> int32 { x + 3 }
@@ -48,6 +52,9 @@ fn is_ev(n: int32) -> bool { if n == 0 { true } else { is_od(n - 1) } }
 fn is_od(n: int32) -> bool { if n == 0 { false } else { is_ev(n - 1) } }
 fn mkt(n: int32) -> (int32, bool) { (n + 1, n > 1) }
 fn fst2(p: (int32, int32)) -> int32 { p.0 }
+fn dbl(x: int32) -> int32 { x * 2 }
+fn pick(n: int32) -> (int32) -> int32 { let _ = string_println("pick"); if n > 0 { inc3 } else { dbl } }
+fn bgw() -> unit { string_println("bgw") }
 """
 
 # features: name -> (statements, int32 expression) over `k`; local names start with q
@@ -92,6 +99,15 @@ FEATURES = {
     "method": ("let qp = P { a: k, b: true };", "qp.sum(2) + P::sum(qp, 1)"),
     "if_chain": ("", "(if k > 5 { 1 } else { if k > 1 { k } else { 0 } })"),
     "int_match": ("", "(match k { 0 => 10, 1 => 11, 3 => 13, _ => k })"),
+    "method_generic": ("let qm: (int32, bool) = P { a: k, b: true }.tagm(true); let qn: (int32, string) = P { a: k, b: true }.tagm(\"s\");",
+                       "qm.0 + qn.0 + P { a: 1, b: k > 1 }.pickm(10, 20) + string_len(P { a: 1, b: false }.pickm(\"x\", \"yy\"))"),
+    "computed_callee": ("", 'pick(k)(pi("arg", k))'),
+    "callee_array": ("let qh = [inc3, dbl];", 'array_get(qh, 1)(pi("a2", k)) + array_get(qh, 0)(1)'),
+    "go_stmt": ('go || string_println("g1"); go bgw;', "k"),
+    "go_tail_while": ('let qc = ref(0); while ref_get(qc) < 2 { let _ = ref_set(qc, ref_get(qc) + 1); go || string_println("spawned") };', "ref_get(qc)"),
+    "go_tail_if": ('if k > 0 { go bgw } else { () }; let _ = match k { 0 => go || string_println("z"), _ => () };', "k"),
+    "str_pat_escape": ("", '(match "a" + "\\n" { "a\\n" => k, "\\t" => 2, "q\\"" => 4, "\\\\" => 5, _ => 3 })'),
+    "str_pat_escape2": ('let qs = if k > 1 { "\\t" } else { "\\\\" };', '(match qs { "t" => 1, "\\t" => 2, "\\\\" => 5, _ => 3 }) + (match ("q\\"", k) { ("q\\"", 3) => 10, ("q", _) => 20, _ => 30 })'),
     "recursion": ("", "fact(k + 2) + (if is_ev(k + 4) { 1 } else { 0 })"),
     "shadow": ("let qs = k; let qs = qs + 1; let qs = qs * 2;", "qs"),
     "string_cmp": ("", '(if "ab" + int32_to_string(k) < "ab3" { 1 } else { 2 }) + (if int32_to_string(k) == "3" { 10 } else { 20 })'),
@@ -225,11 +241,11 @@ def programs(rng, per=6, cells=None):
 
 
 SUBSETS = {
-    "generic": (lambda p, f: f.startswith("gen_") or f == "dyn_generic" or p.startswith("generic_") or p in ("gen_struct_field", "enum_payload")),
+    "generic": (lambda p, f: f.startswith("gen_") or f in ("dyn_generic", "method_generic") or p.startswith("generic_") or p in ("gen_struct_field", "enum_payload")),
     "closure": (lambda p, f: f.startswith("closure") or f == "fn_value" or "closure" in p),
-    "effect": (lambda p, f: f in ("effect", "effect2", "tuple_pat_wild", "tuple_pat_wild2", "struct_lit_order", "dyn_struct", "closure_ref", "ref", "while", "vec") or f.startswith("unit_")
+    "effect": (lambda p, f: f in ("effect", "effect2", "tuple_pat_wild", "tuple_pat_wild2", "struct_lit_order", "dyn_struct", "closure_ref", "ref", "while", "vec", "computed_callee", "callee_array") or f.startswith("unit_") or f.startswith("go_")
                or p in ("discard", "let_tuple", "let_tuple2", "block_tail", "while_cond", "while_body", "while_body_last")),
-    "match": (lambda p, f: "match" in f or "match" in p or f.startswith("gen_enum") or f in ("gen_nested", "struct_pat", "tuple_pat_wild", "tuple_pat_wild2", "unit_if", "unit_if2") or p in ("let_tuple", "let_tuple2", "enum_payload")),
+    "match": (lambda p, f: "match" in f or "match" in p or f.startswith("str_pat") or f.startswith("gen_enum") or f in ("gen_nested", "struct_pat", "tuple_pat_wild", "tuple_pat_wild2", "unit_if", "unit_if2") or p in ("let_tuple", "let_tuple2", "enum_payload")),
     "calls": (lambda p, f: f.startswith("dyn_") or f in ("trait_static", "method", "fn_value") or p in ("method_arg", "method_recv", "method_body", "trait_method_body", "dyn_arg")),
 }
 
